@@ -304,6 +304,30 @@ func c08Alphabet() []e1.Call {
 	txn("txn{ins d.c; updMany d.e; del d.c}+commit", true)
 	txn("txn{ins d.c; updMany d.e; del d.c}+abort", false)
 	add(cCreateIndex("d", "c", bD("n", i(1)), idxOpt{unique: true}))
+	// TTL expiry over several namespaces in one pass: one delete event per removed document
+	add(e1.Call{Name: "ttl-setup{TTL index on t in d.c, d.e, x.c; one expired and one live document each}", Do: func(w *world.World) string {
+		old := primitive.NewDateTimeFromTime(time.Now().Add(-3 * time.Hour))
+		fresh := primitive.NewDateTimeFromTime(time.Now().Add(3 * time.Hour))
+		var res []string
+		for _, ns := range [][2]string{{"d", "c"}, {"d", "e"}, {"x", "c"}} {
+			res = append(res, cCreateIndex(ns[0], ns[1], bD("t", i(1)), idxOpt{expire: i32(3600)}).Do(w))
+			_, e1 := w.C(ns[0], ns[1]).InsertOne(w.Ctx, bD("_id", "ttl-old", "t", old))
+			_, e2 := w.C(ns[0], ns[1]).InsertOne(w.Ctx, bD("_id", "ttl-new", "t", fresh))
+			res = append(res, world.ErrClass(e1), world.ErrClass(e2))
+		}
+		return "ok " + strings.Join(res, ",")
+	}})
+	add(e1.Call{Name: "expire-pass", Do: func(w *world.World) string {
+		txn, err := w.Engine.Begin(nil, true)
+		if err != nil {
+			return "err"
+		}
+		defer w.Engine.Abort(txn)
+		if err := txn.Expire(); err != nil {
+			return "err"
+		}
+		return world.ErrClass(w.Engine.Commit(txn))
+	}})
 	add(cDropColl("d", "c"))
 	add(cDropDB("d"))
 	return calls
